@@ -45,7 +45,55 @@ def contracts():
             "same_object(call_arg('page_exists', -1, 0), title)",
             "same_object(call_arg('page_exists', -1, 1), ns_id)"]},
         ensures=["logged('page_exists') == 4", "logged('add_page') <= 4", "sql_kind(-1) == 'commit'"]))
+    cs.append(template_to_body_contract())
+    # a template page is stored with exactly the reduction of the body it was given; any other page verbatim
+    cs.append(Contract(
+        target="core:Wtp.add_page", variant="template_body", prop="C12", mode="value",
+        params={"title": "str", "namespace_id": "int", "body": "str", "redirect_to": "none",
+                "need_pre_expand": "bool", "model": "str"},
+        requires=["memo_coherent()", "'Template' in ctx.NAMESPACE_DATA"],
+        track_log=True, log_names=["_template_to_body"],
+        ensures=["implies(namespace_id == ctx.NAMESPACE_DATA['Template']['id'], logged('_template_to_body') == 1)",
+                 "implies(namespace_id == ctx.NAMESPACE_DATA['Template']['id'], "
+                 "same_object(sql_params(0)[2], call_result('_template_to_body', 0)))",
+                 "implies(namespace_id == ctx.NAMESPACE_DATA['Template']['id'], "
+                 "same_object(call_arg('_template_to_body', 0, 1), body))",
+                 "implies(namespace_id != ctx.NAMESPACE_DATA['Template']['id'], "
+                 "logged('_template_to_body') == 0 and same_object(sql_params(0)[2], body))"],
+        raises=[], result="none"))
     return cs
+
+
+COMMENT = r"(?s)<!--.*?-->"
+NOINC = r"(?is)<noinclude\s*>.*?</noinclude\s*>"
+NOINC_OPEN = r"(?is)<noinclude\s*>.*"
+COMMENT_OPEN = r"(?s)<!--.*"
+ONLY = r"(?is)<onlyinclude\s*>(.*?)</onlyinclude\s*>|<onlyinclude\s*/>"
+INCONLY = r"(?is)<\s*(/\s*)?includeonly\s*(/\s*)?>"
+
+
+def template_to_body_contract():
+    """'templates reduced to their includable part': on every path the body goes through the five removals in
+    the documented order, each applied to the result of the previous one, the <onlyinclude> scan looks at the text
+    after the fourth, and what is returned is the result of the last removal (no early exit, no skipped step).
+    The pattern texts themselves are pinned as drift clauses (a changed text makes the check undecided, the
+    bounded tier then decides)."""
+    pats = [COMMENT, NOINC, NOINC_OPEN, COMMENT_OPEN, INCONLY]
+    ens = ["logged('re.sub') == 5", "logged('re.finditer') == 1",
+           "same_object(result, call_result('re.sub', 4))",
+           "same_object(call_arg('re.sub', 0, 2), text)",
+           "same_object(call_arg('re.finditer', 0, 1), call_result('re.sub', 3))"]
+    drift = [f"call_arg('re.finditer', 0, 0) == {ONLY!r}"]
+    for i, p_ in enumerate(pats):
+        drift.append(f"call_arg('re.sub', {i}, 0) == {p_!r}")
+        ens.append(f"call_arg('re.sub', {i}, 1) == ''")
+    for i in (1, 2, 3):
+        ens.append(f"same_object(call_arg('re.sub', {i}, 2), call_result('re.sub', {i - 1}))")
+    return Contract(target="core:Wtp._template_to_body", prop="C12", mode="frame",
+                    params={"title": "str", "text": "str"}, track_log=True, log_names=["re.sub", "re.finditer"],
+                    ensures=ens, drift=drift,
+                    assumed=["re.sub / re.finditer are CPython's; the six pattern texts are the reference definition "
+                             "of the includable part (validated against MediaWiki-style bodies by the bounded tier)"])
 
 
 def setup_registry(reg):
